@@ -33,6 +33,7 @@ def plan(tier, seed):
     shards += [{"part": "qevents", "seed": seed, "tier": tier, "k": i} for i in range(ncli)]
     shards += [{"part": "ensevents", "seed": seed, "tier": tier, "k": i} for i in range(ncli)]
     shards += [{"part": "fss", "seed": seed, "tier": tier, "k": i} for i in range(2)]
+    shards += [{"part": "window", "seed": seed, "tier": tier, "k": i} for i in range(2)]
     shards += [{"part": "ambient", "seed": seed, "tier": tier, "k": i, "n": 150 if tier == "quick" else 1200}
                for i in range(4)]
     return shards
@@ -494,7 +495,62 @@ def run_fss_events(desc, ctx):
                                           "valid cases give %r" % (thr, key, k, got, thr, want), {"ds": ds, "threshold": thr})
 
 
+def run_window(desc, ctx):
+    """scripts/window.py -r t -b <bin>: the weather window at lead time o ends after as many lead times as there are running
+    totals (from o onwards) inside the event - the event being the one the bin type documents, ties with the threshold included
+    or not accordingly"""
+    from vmon.props import c20
+    rng = random.Random("C07-window-%s-%s" % (desc["seed"], desc["k"]))
+    base = os.path.join(ctx.workdir, "window")
+    for ci in range(4 if desc["tier"] == "quick" else 40):
+        d = os.path.join(base, "w%d" % ci)
+        os.makedirs(d, exist_ok=True)
+        thr = rng.choice([1.0, 2.0, 0.5])
+        vals = [0.0, 0.0, 0.25, 0.5, 0.5, 1.0, 2.0, None]
+        times = c20.times_before_2038(rng, 2)
+        leads = sorted(rng.sample([0, 3, 6, 12, 18, 24, 30, 36, 48], rng.randint(3, 6)))
+        inp = gen.make_input(rng, "w.txt" if rng.random() < 0.5 else "w.nc", "text", times, leads, gen.LOC_POOL[:2], miss=0.0)
+        inp["fmt"] = "nc" if inp["name"].endswith(".nc") else "text"
+        for c in inp["cells"].values():
+            c["obs"] = rng.choice(vals)
+            c["fcst"] = rng.choice(vals)
+        path = gen.write_input(inp, d, None)
+        for b in ("below", "below=", "above", "above="):
+            outp = os.path.join(d, "out-%s.nc" % b.replace("=", "e"))
+            r = c20.run_script("window.py", [path, outp, "-r", gen.fnum(thr), "-b", b])
+            case = {"inp": inp, "threshold": thr, "bin": b}
+            if r.returncode != 0 or not os.path.exists(outp):
+                ctx.violation("window-script-failed|%s" % b, (r.stdout + r.stderr)[-500:], case)
+                continue
+            out = c20.read_nc(outp)
+            ti = {float(v): j for j, v in enumerate(out["time"].tolist())}
+            li = {round(float(v), 3): j for j, v in enumerate(out["leadtime"].tolist())}
+            si = {float(v): j for j, v in enumerate(out["location"].tolist())}
+            ties = 0
+            for field in ("obs", "fcst"):
+                for t in times:
+                    for loc in inp["locs"]:
+                        series = [inp["cells"][gen.ck(t, l, loc[0])].get(field) for l in leads]
+                        for o in range(len(leads)):
+                            acc, q = 0.0, 0
+                            for j in range(o, len(leads)):
+                                acc = acc + series[j] if (series[j] is not None and acc == acc) else NAN
+                                if acc == acc:
+                                    ties += acc == thr
+                                    q += 1 if expected(b, [thr], 0, acc) else 0
+                            want = NAN if series[o] is None else leads[min(q + o, len(leads) - 1)] - leads[o]
+                            got = float(out[field][ti[float(t)], li[round(float(leads[o]), 3)], si[float(loc[0])]])
+                            ctx.count("window_cells")
+                            if not ((got != got and want != want) or got == want):
+                                ctx.violation("window-event|%s" % b, "window.py -r %s -b %s: %s series %s (lead times %s), window from lead "
+                                              "time %s = %r, the documented event gives %r" % (gen.fnum(thr), b, field, series, leads, leads[o], got, want), case)
+                                break
+            ctx.case("window|%s|thr%s" % (b, gen.fnum(thr)), ties > 0, {"argv": ["window.py", "-r", thr, "-b", b], "running totals equal to the threshold": ties})
+
+
 def run_shard(desc, ctx):
+    if desc["part"] == "window":
+        return run_window(desc, ctx)
     if desc["part"] == "fss":
         return run_fss_events(desc, ctx)
     if desc["part"] == "ensevents":
